@@ -3,6 +3,7 @@ package main
 import (
 	"fmt"
 	"go/ast"
+	"go/token"
 	"go/types"
 	"math/big"
 )
@@ -353,6 +354,28 @@ func (ex *Exec) evalBuiltin(e *ast.CallExpr, name string) Value {
 				return a
 			}
 			return b
+		}
+		mt := machType(ex.typeOf(e.Args[0]))
+		if mt.Kind == "int" && len(e.Args) == 2 {
+			lt := ex.cmpop(token.LSS, a, b, mt)
+			if name == "min" {
+				return Ite(lt, a, b)
+			}
+			return Ite(lt, b, a)
+		}
+	case "clear":
+		if s, ok := ex.eval(e.Args[0]).(SliceV); ok && s.Abs == nil && s.SymLen == nil {
+			st := ex.typeOf(e.Args[0]).Underlying().(*types.Slice)
+			if leafCount(st.Elem()) == 1 {
+				z := ex.zeroValue(st.Elem())
+				for i := 0; i < s.Len; i++ {
+					s.Obj.Cells[s.Off+i] = z
+				}
+				if s.Len > 0 {
+					ex.noteWrite(s.Obj, s.Off, s.Len)
+				}
+				return nil
+			}
 		}
 	}
 	ex.unsupported("builtin %s at %s", name, ex.where(e))
